@@ -31,7 +31,27 @@ var solvers = []solverSpec{
 }
 
 // emit renders one obligation.
-func (e *Engine) emit(o *Oblig, lambda bool, withModel bool) string {
+func (e *Engine) emit(o *Oblig, lambda bool, withModel bool, rounds ...int) string {
+	maxRounds := 0 // 0: relevance closure to a fixpoint; n: only facts within n hops of the goal (slim variant)
+	if len(rounds) > 0 {
+		maxRounds = rounds[0]
+	}
+	// quantLevel: which universally quantified assumptions are emitted.  0: all; 1: only those written in contracts
+	// (requires, callee postconditions, loop invariants, asserted lemmas), none of the engine's own memory-model
+	// axioms; 2: asserted lemmas only.  Fewer assumptions: `unsat` stays conclusive.
+	quantLevel := 0
+	if len(rounds) > 1 {
+		quantLevel = rounds[1]
+	}
+	quantAllowed := func(origin string) bool {
+		switch quantLevel {
+		case 1:
+			return origin == "requires" || strings.HasPrefix(origin, "ensures of") || strings.HasPrefix(origin, "loop invariant") || origin == "asserted lemma"
+		case 2:
+			return origin == "asserted lemma"
+		}
+		return true
+	}
 	// Relevance: start from the goal; a fact is kept when it shares a specific (non-ubiquitous) symbol with the
 	// cone, or consists of ubiquitous symbols only (frame axioms, heap facts); iterate to a fixpoint.  Sound:
 	// dropping assumptions can only make an obligation harder to discharge.
@@ -64,11 +84,48 @@ func (e *Engine) emit(o *Oblig, lambda bool, withModel bool) string {
 			closeOver(x)
 		}
 	}
+	// path conditions of the goal (full closure): which guards are on the goal's path
 	addSyms(o.goal.s)
 	for _, f := range o.extraFacts {
 		addSyms(f.s)
 	}
+	pathNeed := need
+	if maxRounds > 0 {
+		// slim variant: relevance does not flow through the definitions of path conditions (they mention nearly
+		// every symbol of the path); the definitions themselves are still emitted
+		need = map[string]bool{}
+		closeOver = func(sym string) {
+			if need[sym] {
+				return
+			}
+			need[sym] = true
+			if strings.HasPrefix(sym, "pc!") {
+				return
+			}
+			if b, ok := defBody[sym]; ok {
+				ss := map[string]bool{}
+				symbolsOf(b, ss)
+				for x := range ss {
+					closeOver(x)
+				}
+			}
+		}
+		addSyms(o.goal.s)
+		for _, f := range o.extraFacts {
+			addSyms(f.s)
+		}
+	}
+	// path relevance: a fact assumed under path condition pc!X can only matter when pc!X is the goal's own path
+	// condition or one it was derived from (its definition reaches pc!X); facts of sibling paths (e.g. the body
+	// of an earlier loop) are dropped.  Sound for the same reason: fewer assumptions.
+	onPath := map[string]bool{}
+	for x := range pathNeed {
+		if strings.HasPrefix(x, "pc!") {
+			onPath[x] = true
+		}
+	}
 	type factRec struct {
+		guard string
 		text string
 		syms []string // specific symbols
 		all  []string // every generated symbol (name!N) it mentions
@@ -83,9 +140,17 @@ func (e *Engine) emit(o *Oblig, lambda bool, withModel bool) string {
 	}
 	var recs []*factRec
 	collect := func(text, origin string) {
+		if quantLevel > 0 && (strings.Contains(text, "(forall ") || strings.Contains(text, "(exists ")) && !quantAllowed(origin) {
+			return
+		}
 		ss := map[string]bool{}
 		symbolsOf(text, ss)
 		r := &factRec{text: text}
+		if strings.HasPrefix(text, "(=> pc!") {
+			if i := strings.IndexByte(text[4:], ' '); i > 0 {
+				r.guard = text[4 : 4+i]
+			}
+		}
 		bound := boundVars(text)
 		for x := range ss {
 			if strings.Contains(x, "!") && !bound[x] {
@@ -110,8 +175,9 @@ func (e *Engine) emit(o *Oblig, lambda bool, withModel bool) string {
 	for _, f := range o.xFacts {
 		collect(f.t.s, f.origin)
 	}
-	for changed := true; changed; {
+	for round, changed := 0, true; changed && (maxRounds == 0 || round < maxRounds); round++ {
 		changed = false
+		var pending []string
 		for _, r := range recs {
 			if r.kept {
 				continue
@@ -126,6 +192,30 @@ func (e *Engine) emit(o *Oblig, lambda bool, withModel bool) string {
 			if !inScope {
 				continue
 			}
+			if r.guard != "" && !onPath[r.guard] && os.Getenv("GOVC_NOPATH") == "" {
+				g, ok := r.guard, false
+				for i := 0; i < 64 && !ok; i++ {
+					p, has := e.exprPcParent[g]
+					if !has {
+						break
+					}
+					g, ok = p, onPath[p]
+					if !ok && !strings.HasPrefix(p, "pc!") {
+						// the refined condition was an unnamed combination of path conditions (a merged state)
+						ss := map[string]bool{}
+						symbolsOf(p, ss)
+						ok = true
+						for x := range ss {
+							if strings.HasPrefix(x, "pc!") && !onPath[x] {
+								ok = false
+							}
+						}
+					}
+				}
+				if !ok {
+					continue
+				}
+			}
 			rel := len(r.syms) == 0
 			for _, x := range r.syms {
 				if need[x] {
@@ -136,6 +226,39 @@ func (e *Engine) emit(o *Oblig, lambda bool, withModel bool) string {
 			if rel {
 				r.kept = true
 				changed = true
+				if maxRounds == 0 {
+					addSyms(r.text)
+				} else {
+					pending = append(pending, r.text) // hop-exact: symbols become visible in the next round
+				}
+			}
+		}
+		for _, t := range pending {
+			addSyms(t)
+		}
+	}
+	if maxRounds > 0 {
+		// emission needs every symbol the kept text mentions, path conditions expanded
+		need = map[string]bool{}
+		closeOver = func(sym string) {
+			if need[sym] {
+				return
+			}
+			need[sym] = true
+			if b, ok := defBody[sym]; ok {
+				ss := map[string]bool{}
+				symbolsOf(b, ss)
+				for x := range ss {
+					closeOver(x)
+				}
+			}
+		}
+		addSyms(o.goal.s)
+		for _, f := range o.extraFacts {
+			addSyms(f.s)
+		}
+		for _, r := range recs {
+			if r.kept {
 				addSyms(r.text)
 			}
 		}
@@ -293,7 +416,7 @@ func (e *Engine) solve(o *Oblig, dir string, idx int, timeoutS int, crossCheck b
 	_ = os.WriteFile(fileQ, []byte(e.emit(o, false, false)), 0o644)
 	ctx, cancel := context.WithCancel(context.Background())
 	defer cancel()
-	ch := make(chan solveResult, len(solvers))
+	ch := make(chan solveResult, len(solvers)+12)
 	for _, s := range solvers {
 		s := s
 		go func() {
@@ -304,9 +427,41 @@ func (e *Engine) solve(o *Oblig, dir string, idx int, timeoutS int, crossCheck b
 			ch <- runSolver(ctx, s, f, timeoutS)
 		}()
 	}
+	// slim variants: only the facts within two hops of the goal.  Fewer assumptions: `unsat` is as good as on the
+	// full condition, any other answer is ignored.
+	nRace := len(solvers)
+	if !crossCheck && len(textL) > 60000 {
+		for _, vr := range [][2]int{{2, 0}, {2, 1}, {2, 2}, {0, 1}, {0, 2}} {
+			hops, lvl := vr[0], vr[1]
+			fileS := filepath.Join(dir, fmt.Sprintf("o%05d_s%d%d.smt2", idx, hops, lvl))
+			fileSQ := filepath.Join(dir, fmt.Sprintf("o%05d_sq%d%d.smt2", idx, hops, lvl))
+			_ = os.WriteFile(fileS, []byte(e.emit(o, true, false, hops, lvl)), 0o644)
+			_ = os.WriteFile(fileSQ, []byte(e.emit(o, false, false, hops, lvl)), 0o644)
+			for _, s := range solvers {
+				if strings.HasPrefix(s.name, "z3-4") {
+					continue
+				}
+				s := s
+				nRace++
+				go func() {
+					f := fileS
+					if !s.lambda {
+						f = fileSQ
+					}
+					rr := runSolver(ctx, s, f, timeoutS)
+					if rr.status != "unsat" {
+						rr.status = "unknown"
+					} else {
+						rr.solver += fmt.Sprintf("/slim%d%d", hops, lvl)
+					}
+					ch <- rr
+				}()
+			}
+		}
+	}
 	var results []solveResult
 	final := solveResult{status: "unknown"}
-	for range solvers {
+	for i := 0; i < nRace; i++ {
 		rr := <-ch
 		results = append(results, rr)
 		if crossCheck {
